@@ -21,8 +21,8 @@ import c08x
 
 LEVEL = "model_checking"
 ALL = ["jacobi", "sor", "ssor", "poly", "ilu", "scale", "diagonal", "matrix"]
-INV = "SorRelation SsorRelation JacobiRelation IluLaws Linearity LifeOK Emit"
-BLAWS = "BInvLaw BJacobiRelation BSorRelation BSsorRelation BIluLaws BLinearity ScalarConsistency BLifeOK"
+INV = "SorRelation SsorRelation JacobiRelation IluLaws Linearity FilterLaw MeanFilterLaw LifeOK Emit"
+BLAWS = "BInvLaw BJacobiRelation BSorRelation BSsorRelation BIluLaws BLinearity ScalarConsistency BFilterLaw BLifeOK"
 HARNESS = {"scalar": "c08_precond", "blocked": "c08_precond_blk", "ilusym": "c08_ilusym"}
 
 
@@ -163,7 +163,7 @@ def sig(c, r):
         return {"part": part, "kind": "ilusym", "n": c["n"], "clause": clause, "p": r.get("p", -1), "src": c["src"]["kind"],
                 "outcome": r.get("outcome", "mismatch")}
     s = {"kind": c["kind"], "n": c["n"], "clause": clause, "stale": bool(r.get("stale", False)),
-         "p": c["p"], "filtered": len(c["F"]) > 0, "outcome": r.get("outcome", "mismatch")}
+         "p": c["p"], "filtered": len(c["F"]) + len(c["F2"]) > 0, "mean_filter": c["mk"] != 0, "outcome": r.get("outcome", "mismatch")}
     if part == "blocked":
         s.update({"part": part, "bs": c["bs"], "omega": dyad(c["w"]), "noncommuting": bool(any(c["noncomm"]))})
     return s
@@ -173,7 +173,7 @@ def key(c):
     part = c.get("_part", "scalar")
     if part == "ilusym":
         return json.dumps(["ilusym", c["n"], c["pat"]])
-    return json.dumps([c.get("bs", 0), c["n"], c["kind"], c["w"], c["m"], c["p"], c["F"], c["pat"], c["A1"], [s["op"] for s in c["steps"]]])
+    return json.dumps([c.get("bs", 0), c["n"], c["kind"], c["w"], c["m"], c["p"], c["F"], c["mk"], c["F2"], c["pat"], c["A1"], [s["op"] for s in c["steps"]]])
 
 
 def nontrivial(c):
